@@ -83,7 +83,7 @@ impl Property for C11 {
                 };
                 let target = if ty == Ty::Int { 1011 } else { 1013 };
                 let text = format!("{{\n    REG[{}] = {};\n}}\n", target, e.print_top());
-                let vals: Vec<Vec<(i32, Val)>> = (0..8).map(|_| gen_valuation(tape, &spec)).collect();
+                let vals: Vec<Vec<(i32, Val)>> = gen_valuations(tape, &spec, 8);
                 json!({"mode": "partial", "spec": spec.to_json(), "text": text, "valuations": valuations_to_json(&vals), "target": target})
             }
             _ => {
